@@ -87,6 +87,9 @@ type Result struct {
 	Fatal string
 	// shapeAcc accumulates what the world wants hashed into Shape.
 	shapeAcc string
+	// Extra carries world-specific data back to the driver (e.g. the
+	// recorded schedule of a concurrent run).
+	Extra map[string]string
 }
 
 func newResult() *Result {
@@ -112,6 +115,19 @@ type World interface {
 	Exec(prop string, t *Trace) *Result
 	// Simplify proposes simpler variants of an op for the minimiser.
 	Simplify(o Op) []Op
+}
+
+// Concretiser is implemented by worlds whose generated traces still contain a
+// seeded choice source (a scheduler seed): after a violating run the recorded
+// choices replace the seed, so the replay file is fully explicit.
+type Concretiser interface {
+	Concretise(t *Trace, res *Result) *Trace
+}
+
+// CfgShrinker is implemented by worlds that can propose simpler
+// configurations (beyond dropping and simplifying operations).
+type CfgShrinker interface {
+	ShrinkCfg(t *Trace) []*Trace
 }
 
 func sortedKeys(m map[string]int) []string {
